@@ -15,6 +15,9 @@ for d in sorted(glob.glob(base + '/C*-*')):
     log = open(d + '/check_seeded.log').read() if os.path.exists(d + '/check_seeded.log') else ''
     viol = re.findall(r'VIOLATION property=(\S+) replay=\S+\n\s+(.*)', log)
     h = hist.get(name, {})
+    also = {}
+    for f in sorted(glob.glob(d + '/also_*.txt')):
+        k, v = open(f).read().strip().split('='); also[k[5:]] = ('detected' if v == '1' else 'exit ' + v)
     detected = 'yes' if res.get('check_exit') == '1' and viol else 'no'
     meta = dict(seed=name, property=name.split('-')[0], source='independent sub-agent given only the property text and its own scratch git worktree of /repo (nothing from /verif)',
                 what_it_needs_to_manifest=notes,
@@ -24,8 +27,9 @@ for d in sorted(glob.glob(base + '/C*-*')):
                 ran=[f'tools/seedrun.sh {name.split("-")[0]} {name.split("-")[1]} <dir>: scratch worktree of /repo HEAD; demo.py on the unchanged tree and with patch.diff applied (git apply); the pinned suite command of BASELINE.json (pytest -n 3, junit compared with stable_pass; load-sensitive tests re-run serially); ./check <PROP> --tier quick with VERIF_REPO=<patched worktree>; worktree removed'],
                 check_exit_with_change=res.get('check_exit'), detected_by_quick_check=detected,
                 first_violation_lines=[v[1][:300] for v in viol[:3]],
+                other_checks_run_on_the_change=also,
                 first_attempt=h.get('first', 'detected' if detected == 'yes' else 'missed'),
                 comment=h.get('comment', ''))
     json.dump(meta, open(d + '/meta.json', 'w'), indent=1)
-    rows.append((name, detected, meta['first_attempt'], meta['comment'][:80]))
+    rows.append((name, detected, also, meta['first_attempt'], meta['comment'][:80]))
 for r in rows: print(*r, sep=' | ')
